@@ -599,7 +599,9 @@ where
         }
 
         // Not considering the whole header
-        if data.len() > self.config.max_packet_size.get() {
+        // Every item is sent with a u16 length prefix, so it can never
+        // be larger than that regardless of the packet size
+        if data.len() > self.config.max_packet_size.get() || data.len() > usize::from(u16::MAX) {
             return Err(Error::DataTooBig);
         }
 
